@@ -21,7 +21,7 @@ from __future__ import annotations
 
 import itertools
 
-from ..lib import (evaluator, Decider, rec_fields, show, walk, strip_casts, is_ext_call, fn_name, method_name,
+from ..lib import (axes_all_but, evaluator, Decider, rec_fields, show, walk, strip_casts, is_ext_call, fn_name, method_name,
                    path_str, ext_name)
 from ..spec import spec_term, Comparer
 from ..terms import T, sym, const, is_const, cval, NONE, ext
@@ -89,7 +89,10 @@ def run(ctx):
         continue
       Tt = red.args[1][0]
       nd = spec_term(ev, 'g.ndim', env)
-      ok_ax = _all_axes_but_i(ev, cmpr, kw['axis'], nd, acc_new.args[0].args[1])
+      own = axes_all_but(ev, cmpr, kw['axis'], nd)
+      # the axis kept must be the variable of the enclosing iteration over range(ndim) (accumulator i keeps axis i)
+      ok_ax = own is not None and own.op == 'rangevar' and not any(a_.op == 'depth' for a_ in own.args) and \
+          len(own.args) == 1 and cmpr.same(own.args[0], nd)
       ctx.ob('C12.R1d', fu.short, f'max over exactly the axes != i {tag}', ok_ax,
              f'accumulator i must reduce over range(i) + range(i+1, ndim) for i in range(ndim); got axis=`{show(kw["axis"], maxdepth=5)[:200]}`', ctx.loc(fu),
              sample='axes = range(i) + range(i+1, ndim)')
